@@ -410,7 +410,187 @@ def case_mask(ctx, inp):
     ctx.branch("mask-dask" if inp["dask_mask"] else "mask-numpy")
 
 
-CASES = {"parse": case_parse, "plan": case_plan, "api": case_api, "mask": case_mask}
+def _owned_source(kind, x0, chunks):
+    """A dask array with the values of x0 whose blocks, when computed, OWN their memory (are not views of a
+    user array): the chunk function `setitem` may not rely on the copy NumPy made for it elsewhere."""
+    import numpy as np
+    import dask.array as da
+    if kind == "arange":
+        return da.arange(x0.shape[0], chunks=(tuple(chunks[0]),), dtype=x0.dtype)
+    if kind == "from_array":      # blocks are views of x0 (the classical case)
+        return da.from_array(x0, chunks=chunks)
+    d = da.from_array(x0.copy(), chunks=chunks) + 0   # every block is the fresh result of an addition
+    if kind == "persist":
+        return d.persist(scheduler="sync")
+    return d
+
+
+def _self_op(a, op, is_np):
+    """One assignment whose value / mask / index is derived from the array itself; the same expression is evaluated
+    on NumPy (reference; right-hand sides copied first) and on dask."""
+    k = op["kind"]
+    if k == "shift":
+        dst = tuple(slice(*s) for s in op["dst"])
+        src = tuple(slice(*s) for s in op["src"])
+        v = a[src]
+        if op.get("affine"):
+            v = v * 2 + 1
+        a[dst] = v.copy() if is_np else v
+    elif k == "mask":
+        a[a > op["k"]] = op["c"]
+    elif k == "maskrow":
+        m = a[:, op["j"]] > op["k"]
+        v = a[op["i"]]
+        a[m] = v.copy() if is_np else v
+    elif k == "idx":
+        v = a[op["src"]]
+        a[op["dst"]] = v.copy() if is_np else v
+    else:
+        raise AssertionError(k)
+
+
+def case_selfref(ctx, inp):
+    """x[index] = value where the value (or the mask / the index) is DERIVED FROM x ITSELF, on arrays whose blocks own
+    their memory, under the synchronous and the threaded scheduler. NumPy semantics: the right-hand side is evaluated
+    first. Clauses: result = NumPy's; chunks unchanged; computing twice gives the same; the source array (the same
+    graph / the same persisted blocks) still computes to its original values afterwards (no input block mutated)."""
+    import numpy as np
+    import dask.array as da
+    shape, chunks = tuple(inp["shape"]), tuple(tuple(c) for c in inp["chunks"])
+    x0 = (np.arange(int(np.prod(shape))).reshape(shape) * 2 + 3)
+    if inp["src"] == "arange":
+        x0 = np.arange(shape[0])
+    y = x0.copy()
+    try:
+        for op in inp["ops"]:
+            _self_op(y, op, True)
+    except (IndexError, ValueError, TypeError):
+        ctx.note("numpy-rejects")
+        return
+    sched = inp["scheduler"]
+    src = _owned_source(inp["src"], x0, chunks)
+    d = src.copy()
+    try:
+        for op in inp["ops"]:
+            _self_op(d, op, False)
+        got = np.asarray(d.compute(scheduler=sched))
+        got2 = np.asarray(d.compute(scheduler=sched))
+        again = np.asarray(src.compute(scheduler=sched))
+    except NotImplementedError:
+        ctx.note("dask-not-implemented")
+        return
+    except Exception as e:
+        ctx.fail("self-derived assignment raised " + type(e).__name__ + " where NumPy succeeds", observed=repr(e)[:300])
+        return
+    if got.shape != y.shape or (got != y).any():
+        ctx.fail("x[index] = f(x); x.compute() differs from NumPy (value derived from the same array)",
+                 observed=got.tolist(), expected=y.tolist())
+        return
+    if (got2 != got).any():
+        ctx.fail("computing the assigned array twice gives different results", observed=got2.tolist(), expected=got.tolist())
+        return
+    if (again != x0).any():
+        ctx.fail("the source array changed: an input block was mutated by the assignment", observed=again.tolist(),
+                 expected=x0.tolist())
+        return
+    if d.chunks != chunks:
+        ctx.fail("chunks changed by the assignment", observed=[list(c) for c in d.chunks])
+    ctx.branch("selfref-" + inp["src"])
+    ctx.branch("selfref-" + sched)
+    for op in inp["ops"]:
+        ctx.branch("selfref-op-" + op["kind"])
+    if len(inp["ops"]) > 1:
+        ctx.branch("selfref-chained")
+    if any(len(c) > 1 for c in chunks):
+        ctx.branch("selfref-multiblock")
+
+
+def case_chunkfn(ctx, inp):
+    """The per-block chunk function `setitem(x, v, indices)`: returns NumPy's assignment on a copy; never writes into
+    its input block (whether the block owns its memory or is a view, whether or not v overlaps it); the result does
+    not share memory with the input unless v is empty; place-holder entries (== block size) of integer index arrays
+    are dropped; a masked value makes the result masked."""
+    import numpy as np
+    from dask.array.slicing import setitem
+    shape = tuple(inp["shape"])
+    base = np.arange(int(np.prod(shape)) + 4) * 2 + 3
+    if inp["own"]:
+        x = (np.arange(int(np.prod(shape))) * 2 + 3).reshape(shape) if shape else np.array(7)
+        if shape and inp.get("fortran"):
+            x = np.asfortranarray(x)
+    else:
+        x = base[2:2 + int(np.prod(shape))].reshape(shape)     # a view into a larger buffer
+    if inp.get("readonly"):
+        x.flags.writeable = False
+    before = x.copy()
+    base_before = base.copy()
+    indices, np_indices = [], []
+    for (kind, v), n in zip(inp["index"], shape):
+        if kind == "slice":
+            indices.append(slice(*v)); np_indices.append(slice(*v))
+        elif kind == "int":
+            indices.append(int(v)); np_indices.append(int(v))
+        elif kind == "array":      # may contain the place-holder value n
+            indices.append(np.array(v, dtype=int)); np_indices.append(np.array([t for t in v if t < n], dtype=int))
+        elif kind == "bool":
+            indices.append(np.array(v, dtype=bool)); np_indices.append(np.array(v, dtype=bool))
+    target_shape = before[tuple(np_indices)].shape
+    if inp["value"] == "overlap":
+        # the value is a view of the very block that is assigned to (shifted along axis 0 when possible)
+        sel = x[tuple(np_indices)]
+        v = sel[::-1] if sel.ndim else sel
+        v_ref = np.array(v, copy=True)
+    elif inp["value"] == "scalar":
+        v = np.array(-5); v_ref = v
+    elif inp["value"] == "masked":
+        v = np.ma.masked_array(-(np.arange(int(np.prod(target_shape))).reshape(target_shape) + 1),
+                               mask=(np.arange(int(np.prod(target_shape))).reshape(target_shape) % 2 == 0))
+        v_ref = v
+    elif inp["value"] == "empty":
+        v = np.zeros((0,), dtype=int); v_ref = v
+    else:
+        v = -(np.arange(int(np.prod(target_shape))).reshape(target_shape) + 1); v_ref = v
+    exp = before.copy()
+    if inp["value"] == "masked":
+        exp = exp.view(np.ma.MaskedArray)
+    if inp["value"] != "empty":
+        try:
+            exp[tuple(np_indices)] = v_ref
+        except (ValueError, IndexError):
+            ctx.note("numpy-rejects")
+            return
+    try:
+        got = setitem(x, v, list(indices))
+    except Exception as e:
+        ctx.fail("chunk function setitem raised " + type(e).__name__, observed=repr(e)[:300])
+        return
+    if (np.asarray(x) != before).any() or (base != base_before).any():
+        ctx.fail("chunk function setitem wrote into its input block", observed=np.asarray(x).tolist(), expected=before.tolist())
+        return
+    g, e = np.ma.getdata(got), np.ma.getdata(exp)
+    if g.shape != e.shape or (np.ma.getmaskarray(got) != np.ma.getmaskarray(exp)).any() or \
+            (g[~np.ma.getmaskarray(exp)] != e[~np.ma.getmaskarray(exp)]).any():
+        ctx.fail("chunk function setitem differs from NumPy's assignment on a copy", observed=np.ma.filled(got, -99).tolist(),
+                 expected=np.ma.filled(exp, -99).tolist())
+        return
+    if inp["value"] == "masked" and np.size(v) and not np.ma.isMA(got):
+        ctx.fail("masked value assigned but the result is not a masked array")
+    if np.size(v) == 0:
+        # documented: an empty value leaves the block alone and the input itself is returned
+        ctx.branch("chunkfn-empty-value-returns-input")
+    elif isinstance(got, np.ndarray) and got.size and np.shares_memory(got, x):
+        ctx.fail("the result of the chunk function shares memory with its input block")
+        return
+    ctx.branch("chunkfn-own" if inp["own"] else "chunkfn-view")
+    ctx.branch("chunkfn-value-" + inp["value"])
+    if any(k == "array" and any(t >= n for t in v_) for (k, v_), n in zip(inp["index"], shape)):
+        ctx.branch("chunkfn-placeholders-dropped")
+    if inp.get("readonly"):
+        ctx.branch("chunkfn-readonly-input")
+
+
+CASES = {"parse": case_parse, "plan": case_plan, "api": case_api, "mask": case_mask, "selfref": case_selfref,
+         "chunkfn": case_chunkfn}
 
 
 # --------------------------------------------------------------------------------------
@@ -465,10 +645,111 @@ def _rand_case(rng, dask_idx=True, zeros=0.1, maxn=5):
     return {"shape": shape, "chunks": chunks, "index": spec, "vshape": vshape}
 
 
+def _exact_slice(rng, n, L):
+    """a slice (any step sign, |step| <= 3) selecting exactly L >= 1 positions of an axis of length n"""
+    steps = [s for s in (1, 2, 3) if 1 + s * (L - 1) <= n]
+    step = rng.choice(steps)
+    span = 1 + step * (L - 1)
+    a = rng.randint(0, n - span)
+    last = a + step * (L - 1)
+    if rng.random() < 0.3:
+        stop = a - 1
+        return [last, stop if stop >= 0 else None, -step]
+    stop = last + 1
+    if rng.random() < 0.3:
+        return [a if a else None, stop if stop < n else None, step if step > 1 else None]
+    if rng.random() < 0.3 and a > 0:
+        return [a - n, stop, step]
+    return [a, stop, step]
+
+
+def _rand_self_op(rng, shape):
+    n = shape[0]
+    nvals = 1
+    for s in shape:
+        nvals *= s
+    t = rng.random()
+    if t < 0.55:
+        dst, src = [], []
+        for ax, m in enumerate(shape):
+            if ax == 0 or rng.random() < 0.4:
+                if ax == 0 and rng.random() < 0.5 and m > 1:
+                    # the classical shifted self-slice x[k:] = x[:-k] / x[:-k] = x[k:]
+                    k = rng.randint(1, m - 1)
+                    pair = ([k, None, None], [None, -k, None])
+                    if rng.random() < 0.5:
+                        pair = (pair[1], pair[0])
+                    dst.append(pair[0]); src.append(pair[1])
+                else:
+                    L = rng.randint(1, m)
+                    dst.append(_exact_slice(rng, m, L)); src.append(_exact_slice(rng, m, L))
+            else:
+                dst.append([None, None, None]); src.append([None, None, None])
+        return {"kind": "shift", "dst": dst, "src": src, "affine": rng.random() < 0.2}
+    if t < 0.7:
+        return {"kind": "mask", "k": rng.randint(0, 2 * nvals + 3), "c": -rng.randint(1, 9)}
+    if t < 0.8 and len(shape) == 2:
+        return {"kind": "maskrow", "j": rng.randrange(shape[1]), "k": rng.randint(0, 2 * nvals + 3), "i": rng.randrange(-n, n)}
+    L = rng.randint(1, n)
+    dst = rng.sample(range(n), L) if rng.random() < 0.8 else [rng.randrange(n) for _ in range(L)]
+    if rng.random() < 0.3:
+        dst = [i - n if rng.random() < 0.5 else i for i in dst]
+    return {"kind": "idx", "dst": dst, "src": [rng.randrange(-n, n) for _ in range(L)]}
+
+
+def _rand_selfref(rng):
+    if rng.random() < 0.6:
+        shape = [rng.randint(3, 14)]
+        src = rng.choice(["arange", "arange", "arith", "persist", "from_array"])
+    else:
+        shape = [rng.randint(2, 6), rng.randint(1, 4)]
+        src = rng.choice(["arith", "arith", "persist", "from_array"])
+    chunks = [list(random_chunks(rng, s)) for s in shape]
+    if len(chunks[0]) == 1 and rng.random() < 0.8:
+        k = rng.randint(1, shape[0] - 1)
+        chunks[0] = [k, shape[0] - k]
+    ops = [_rand_self_op(rng, shape) for _ in range(1 if rng.random() < 0.75 else 2)]
+    return {"shape": shape, "chunks": chunks, "src": src, "ops": ops, "scheduler": rng.choice(["sync", "threads"])}
+
+
+def _rand_chunkfn(rng):
+    nd = rng.choice([0, 1, 1, 2, 2, 3])
+    shape = [rng.randint(1, 4) for _ in range(nd)]
+    index, fancy = [], False
+    for n in shape:
+        t = rng.random()
+        if t < 0.45:
+            v = [None] + list(range(-n - 1, n + 2))
+            index.append(("slice", [rng.choice(v), rng.choice(v), rng.choice([None, 1, 2, -1])]))
+        elif t < 0.6:
+            index.append(("int", rng.randrange(-n, n)))
+        elif fancy:
+            index.append(("slice", [None, None, None]))
+        elif t < 0.85:
+            # integer array; the value n is the place-holder that setitem drops
+            index.append(("array", [rng.choice(list(range(n)) + [n]) for _ in range(rng.randint(1, n + 2))]))
+            fancy = True
+        else:
+            index.append(("bool", [rng.random() < 0.6 for _ in range(n)]))
+            fancy = True
+    return {"shape": shape, "index": index, "own": rng.random() < 0.6, "fortran": rng.random() < 0.2,
+            "readonly": rng.random() < 0.15, "value": rng.choice(["full", "full", "overlap", "overlap", "scalar", "masked", "empty"])}
+
+
 def generate(ctx):
     rng = ctx.rng
     thorough = ctx.thorough()
     yield "parse", {"n": 3, "s": [None, None, 0]}
+    # the motivating instance: x[2:] = x[:-2] on da.arange(12, chunks=3), both schedulers, every owning source
+    for src in ("arange", "arith", "persist", "from_array"):
+        for sched in ("sync", "threads"):
+            for pair in (([2, None, None], [None, -2, None]), ([None, -2, None], [2, None, None])):
+                yield "selfref", {"shape": [12], "chunks": [[3, 3, 3, 3]], "src": src, "scheduler": sched,
+                                  "ops": [{"kind": "shift", "dst": [pair[0]], "src": [pair[1]]}]}
+    for _ in range(ctx.n(150, 2500)):
+        yield "selfref", _rand_selfref(rng)
+    for _ in range(ctx.n(250, 4000)):
+        yield "chunkfn", _rand_chunkfn(rng)
     for n in range(0, 7):
         for st, sp, se in itertools.product(slice_values(n), slice_values(n), slice_steps(n)):
             if thorough or rng.random() < (0.35 if n <= 3 else 0.12):
